@@ -160,6 +160,15 @@ func init() {
 					if id == 0x0801 {
 						body = append(body, make([]byte, 36)...)
 					}
+					if rr.Intn(6) == 0 { // a terminal that does not advance its serial number: same serial, other bytes
+						t.smu.Lock()
+						t.serial = (t.serial + 65535) % 65536
+						t.smu.Unlock()
+						if rr.Intn(2) == 0 {
+							id = 0x0801
+							body = append(randBytes(rr, 8), make([]byte, 28+rr.Intn(20))...)
+						}
+					}
 					switch rr.Intn(7) {
 					case 6: // a frame whose header names another phone or uses the other header version (a forwarder's connection)
 						oh := hdrSpec{id: id, serial: t.nextSerial(), ver: t.ver, verbyte: 1, phone: t.phone, body: body}
